@@ -131,10 +131,10 @@ func (p *Parser) Term() (Term, error) {
 		return nil, err
 	}
 
-	switch t, _ := p.next(); t.kind {
-	case tokenEnd:
-		break
-	default:
+	switch end, err := p.next(); {
+	case err != nil:
+		return nil, unexpectedTokenError{actual: end} // No end token. Nothing to back up.
+	case end.kind != tokenEnd:
 		p.backup()
 		return nil, unexpectedTokenError{actual: p.current()}
 	}
@@ -498,7 +498,11 @@ func (p *Parser) term0(maxPriority Integer) (Term, error) {
 	case tokenVariable:
 		return p.variable(t.val)
 	case tokenOpenList:
-		if t, _ := p.next(); t.kind == tokenCloseList {
+		t, err := p.next()
+		if err != nil {
+			return nil, err
+		}
+		if t.kind == tokenCloseList {
 			p.backup()
 			p.backup()
 			break
@@ -506,7 +510,11 @@ func (p *Parser) term0(maxPriority Integer) (Term, error) {
 		p.backup()
 		return p.list()
 	case tokenOpenCurly:
-		if t, _ := p.next(); t.kind == tokenCloseCurly {
+		t, err := p.next()
+		if err != nil {
+			return nil, err
+		}
+		if t.kind == tokenCloseCurly {
 			p.backup()
 			p.backup()
 			break
@@ -593,7 +601,10 @@ func (p *Parser) openClose() (Term, error) {
 	if err != nil {
 		return nil, err
 	}
-	if t, _ := p.next(); t.kind != tokenClose {
+	switch c, err := p.next(); {
+	case err != nil:
+		return nil, errExpectation // End of input. Nothing to back up.
+	case c.kind != tokenClose:
 		p.backup()
 		return nil, errExpectation
 	}
@@ -673,7 +684,11 @@ func (p *Parser) list() (Term, error) {
 	}
 	args := []Term{arg}
 	for {
-		switch t, _ := p.next(); t.kind {
+		t, err := p.next()
+		if err != nil {
+			return nil, errExpectation // End of input. Nothing to back up.
+		}
+		switch t.kind {
 		case tokenComma:
 			arg, err := p.arg()
 			if err != nil {
@@ -686,7 +701,11 @@ func (p *Parser) list() (Term, error) {
 				return nil, err
 			}
 
-			switch t, _ := p.next(); t.kind {
+			t, err := p.next()
+			if err != nil {
+				return nil, errExpectation // End of input. Nothing to back up.
+			}
+			switch t.kind {
 			case tokenCloseList:
 				if len(args) == 1 {
 					return Cons(args[0], rest), nil
@@ -711,7 +730,10 @@ func (p *Parser) curlyBracketedTerm() (Term, error) {
 		return nil, err
 	}
 
-	if t, _ := p.next(); t.kind != tokenCloseCurly {
+	switch c, err := p.next(); {
+	case err != nil:
+		return nil, errExpectation // End of input. Nothing to back up.
+	case c.kind != tokenCloseCurly:
 		p.backup()
 		return nil, errExpectation
 	}
@@ -720,7 +742,11 @@ func (p *Parser) curlyBracketedTerm() (Term, error) {
 }
 
 func (p *Parser) functionalNotation(functor Atom) (Term, error) {
-	switch t, _ := p.next(); t.kind {
+	t, err := p.next()
+	if err != nil {
+		return functor, nil // Nothing follows the atom. Nothing to back up.
+	}
+	switch t.kind {
 	case tokenOpenCT:
 		arg, err := p.arg()
 		if err != nil {
@@ -728,7 +754,11 @@ func (p *Parser) functionalNotation(functor Atom) (Term, error) {
 		}
 		args := []Term{arg}
 		for {
-			switch t, _ := p.next(); t.kind {
+			t, err := p.next()
+			if err != nil {
+				return nil, errExpectation // End of input. Nothing to back up.
+			}
+			switch t.kind {
 			case tokenComma:
 				arg, err := p.arg()
 				if err != nil {
